@@ -869,7 +869,7 @@ func runC16(c *cli.Ctx) error {
 		r := root.Fork()
 		w := emit.NewWriter(c.Out, "C16", "calls")
 		var fails []failure
-		n := 70 * c.Scale
+		n := 200 * c.Scale
 		for i := 0; i < n; i++ {
 			for tag := 0; tag <= 20; tag++ {
 				if !hasArgs(tag) && i%7 != 0 && i > 3 {
@@ -909,8 +909,11 @@ func runC16(c *cli.Ctx) error {
 		for rep := 0; rep < c.Scale; rep++ {
 			for code := 100; code <= 599; code++ {
 				reps := 3
-				if code/100 == 2 || code == 400 || code == 422 {
+				if code/100 == 2 {
 					reps = 10
+				}
+				if code == 400 || code == 422 || code == 200 || code == 204 {
+					reps = 60
 				}
 				for k := 0; k < reps; k++ {
 					tag := tags[r.Intn(len(tags))]
@@ -958,7 +961,7 @@ func runC16(c *cli.Ctx) error {
 		r := root.Fork()
 		w := emit.NewWriter(c.Out, "C16", "malformed")
 		var fails []failure
-		for i := 0; i < 25*c.Scale; i++ {
+		for i := 0; i < 60*c.Scale; i++ {
 			for tag := 0; tag <= 20; tag++ {
 				if !hasArgs(tag) && i%5 != 0 {
 					continue
@@ -1008,7 +1011,7 @@ func runC16(c *cli.Ctx) error {
 				add(gtime{s, ns})
 			}
 		}
-		for i := 0; i < 1500*c.Scale; i++ {
+		for i := 0; i < 4000*c.Scale; i++ {
 			add(genTime(r))
 		}
 		if len(fails) > 0 {
